@@ -11,6 +11,7 @@ package server
 //   C19  the one access-log record per request, with the headers the operator asked for
 
 import (
+	"html"
 	"encoding/json"
 	"fmt"
 	"os"
@@ -90,6 +91,10 @@ func hist2Run(focus string) func(t *testing.T, p hist2Plan) vfResult {
 			synctest.Wait()
 			if focus == "C09" || focus == "C17" {
 				hist2Probes(w, m, focus, restarts, &res)
+				return
+			}
+			if focus == "C04" || focus == "C16" || focus == "C08" {
+				hist2Matrix(w, r, m, focus, restarts, &res)
 				return
 			}
 			obs := c11Observe(w, r, m, "h")
@@ -339,6 +344,99 @@ func hist2Probes(w *vfWorld, m *vfModel, focus string, restarts int, res *vfResu
 		res.label("targets-in-place")
 	}
 	res.NonTrivial = streams > 0
+}
+
+// hist2Matrix sends the request matrix (hosts x paths x both schemes) through the server's handler chain after the
+// history and compares every answer with the model. C04: the scheme the owning service lets through - who answers,
+// and `list`. C16: the other scheme - redirect or refusal as the effective TLS settings say. C08: the cells of stopped
+// services - 503 with the operator's message on the page in force, 200 on the health-check path.
+func hist2Matrix(w *vfWorld, r *Router, m *vfModel, focus string, restarts int, res *vfResult) {
+	hd := NewServer(&Config{HttpPort: 80, HttpsPort: 443}, r).buildHandler()
+	ctx := fmt.Sprintf("after the history (%d restarts)", restarts)
+	cells := 0
+	for _, host := range vfReqHosts {
+		for _, path := range vfReqPaths {
+			for _, tlsOn := range []bool{false, true} {
+				name, _ := vfRefRoute(m.specs(), host, path)
+				eff := false
+				if name != "" {
+					eff, _ = m.effTLS(m.Svcs[name])
+				}
+				rq := vfReqSpec{Host: host, Path: path, TLS: tlsOn}
+				e := m.expect(rq, nil)
+				switch focus {
+				case "C04":
+					if tlsOn != eff {
+						continue
+					}
+				case "C16":
+					if tlsOn == eff || name == "" {
+						continue
+					}
+				case "C08":
+					if name == "" || m.Svcs[name].State != "stopped" || tlsOn != eff {
+						continue
+					}
+				}
+				cells++
+				kind, target, resp := vfObserveExpecting(w, hd, rq, e)
+				if o := m.Svcs[name]; e.Kind == "forward" && kind == "status-500" && o != nil && o.Opt.BufResp && o.Opt.MaxResp > 0 && o.Opt.MaxResp < 200 {
+					// the target's echo is itself over the response limit in force: 500 is the answer C14 asks for
+					res.label("cell:forward-but-echo-over-the-response-limit")
+					continue
+				}
+				if !vfMatches(e, kind, target) {
+					res.failf("matrix-mismatch", "%s: request host=%q path=%q tls=%v: expected %+v, observed %s target=%q (%v); model=%v", ctx, host, path, tlsOn, e, kind, target, resp, m.summary())
+					return
+				}
+				res.label("cell:" + e.Kind)
+				if focus == "C08" && e.Kind == "stopped" {
+					s := m.Svcs[name]
+					body := string(resp.Body)
+					custom := s.Opt.ErrPages == 1
+					if custom != strings.Contains(body, vfCustom503Marker) || custom == strings.Contains(body, c08BuiltinMarker) {
+						res.failf("wrong-503-page", "%s: stopped service %s, request host=%q path=%q: custom page expected=%v; body starts %q", ctx, name, host, path, custom, body[:min(len(body), 120)])
+						return
+					}
+					region, ok := c08MessageRegion(body, custom)
+					if !ok {
+						res.failf("no-message-region", "%s: stopped service %s: cannot find the message paragraph in the 503 page", ctx, name)
+						return
+					}
+					if s.Msg == "" && !custom {
+						if !strings.Contains(region, c08DefaultText) {
+							res.failf("default-text-missing", "%s: stopped service %s: empty message must give the default text, region=%q", ctx, name, region)
+							return
+						}
+						continue
+					}
+					if got, want := html.UnescapeString(region), c08WantText(s.Msg); got != want {
+						res.failf("message-altered", "%s: stopped service %s: message region unescapes to %q, want %q", ctx, name, got, want)
+						return
+					}
+				}
+			}
+		}
+	}
+	if focus == "C04" && !vfCheckList(r, m, res, ctx) {
+		return
+	}
+	if restarts > 0 {
+		res.label("restart-in-history")
+	}
+	res.NonTrivial = cells > 0 && len(m.Svcs) > 0
+}
+
+func TestVF_C04_History(t *testing.T) {
+	vfCheck(t, vfProp[hist2Plan]{id: "C04", gen: hist2Gen, run: hist2Run("C04")})
+}
+
+func TestVF_C08_History(t *testing.T) {
+	vfCheck(t, vfProp[hist2Plan]{id: "C08", gen: hist2Gen, run: hist2Run("C08")})
+}
+
+func TestVF_C16_History(t *testing.T) {
+	vfCheck(t, vfProp[hist2Plan]{id: "C16", gen: hist2Gen, run: hist2Run("C16")})
 }
 
 func TestVF_C09_History(t *testing.T) {
